@@ -158,7 +158,13 @@ def const_to_val(obj):
             raise Unsupported(f'non-finite float constant {obj}')
         return Val.R(RealVal(repr(obj)))
     if isinstance(obj, str): return Val.S(StringVal(obj))
+    if obj in BUILTIN_VALUES: return BUILTIN_VALUES[obj]
     raise Unsupported(f'constant {obj!r} has no Val encoding')
+
+
+# built-in functions that edzed stores as values (FuncBlock func=all / func=any)
+BUILTIN_ALL, BUILTIN_ANY = Val.Opq(IntVal(-201)), Val.Opq(IntVal(-202))
+BUILTIN_VALUES = {all: BUILTIN_ALL, any: BUILTIN_ANY}
 
 
 def to_val(pv, st=None):
